@@ -7,7 +7,7 @@
     [operator()] calls; [wf_rng]/[wfx] say that the words are 32-bit. *)
 From Coq Require Import NArith List.
 From Celer Require Import Generated.C13_tables C13.Xorwow C13.Gf2 C13.XorwowProofs
-  C13.Period C13.PeriodProofs C13.InitProofs.
+  C13.Period C13.PeriodProofs C13.InitProofs C13.CommuteProofs.
 Import ListNotations.
 Local Open Scope N_scope.
 
@@ -104,3 +104,21 @@ Theorem C13_canonical_float_refuted :
   exists u, u < two32 /\ float_of_u32 u = 2 ^ src_norm_f_log2.
 Proof. exact canonical_float_refuted. Qed.
 Print Assumptions C13_canonical_float_refuted.
+
+(** skipping n draws and skipping k subsequences commute, for all 64-bit n, k *)
+Theorem C13_discard_commute : forall r n k, wf_rng r -> n < 2 ^ 64 -> k < 2 ^ 64 ->
+  discard n (discard_subsequence k r) = discard_subsequence k (discard n r).
+Proof. exact discard_commute. Qed.
+Print Assumptions C13_discard_commute.
+
+(** streams stay disjoint under arbitrary histories of discards (each 64-bit)
+    whose total per stream is below 2^67 *)
+Theorem C13_streams_disjoint_advanced : forall seed S e1 s1 e2 s2 la lb,
+  seed < two32 -> s1 < S -> s2 < S ->
+  e1 * S + s1 < 2 ^ 64 -> e2 * S + s2 < 2 ^ 64 ->
+  (e1 <> e2 \/ s1 <> s2) ->
+  Forall (fun n => n < 2 ^ 64) la -> Forall (fun n => n < 2 ^ 64) lb ->
+  total la < 2 ^ 67 -> total lb < 2 ^ 67 ->
+  xs (advance la (reseed seed e1 S s1)) <> xs (advance lb (reseed seed e2 S s2)).
+Proof. exact streams_disjoint_advanced. Qed.
+Print Assumptions C13_streams_disjoint_advanced.
